@@ -44,6 +44,17 @@ PY_SEMANTICS = [
     "attributes that a contract did not give to an object it built are out of reach, not AttributeErrors",
     "numpy element-wise code is verified pointwise at an arbitrary index (pair); z3 may hang or crash outside its "
     "timeouts - such a job is undecided",
+    "len(set) is an uninterpreted cardinality tied to the length of the set's enumerations; set truthiness in code is a fresh "
+    "boolean equivalent to the existence of a member (Skolem witness); set().union(*seq) is a fresh set with exactly the members of "
+    "the elements (Skolem witness); set.pop() returns an arbitrary member",
+    "{k: v for x in S if p} is a fresh map: every key with p present, a key maps to the value of its last occurrence with p, every "
+    "key comes from an element with p; insertion order not described",
+    "str.split() without arguments is under-specified: non-empty blank-free substrings, at least one when the string starts with "
+    "a non-blank character, the whole string when it has no blank (blank = space); str.replace / strip / lower ... are "
+    "uninterpreted functions",
+    "a container that a loop body mutates must be listed in the loop specification's `modifies` (frame obligation, else undecided); "
+    "[x] * n with symbolic n is an immutable view of n references to x",
+    "in a region contract the kinds (list / dict / set) of the live-in variables are assumptions about the code before the region",
 ]
 
 DROPPED = ["docstrings and comments", "LOGGER.debug/info calls (no effect on any property)",
